@@ -229,7 +229,7 @@ func c12MultiWriterElems(v ssa.Value) ([]ssa.Value, bool) {
 }
 
 func runC12(c *Ctx) {
-	fns := c.P.FuncsOfPkg(c11Pkg)
+	fns := c11FuncsOfPkg(c.P, c11Pkg)
 	if len(fns) == 0 {
 		c.LostAnchor("C12.R1.descriptor-describes-bytes", "package ~/"+c11Pkg)
 		return
@@ -254,6 +254,7 @@ func c12R5(c *Ctx, fns []*ssa.Function) {
 	const R5 = "C12.R5.sanitisers-do-not-over-reject"
 	c.Expect(R5, 1) // the two sanitisers may share one predicate helper
 	for _, f := range fns {
+		c12R5CutForms(c, R5, f)
 		n := 0
 		for _, call := range Calls(f, func(nm string) bool {
 			switch nm {
@@ -275,6 +276,52 @@ func c12R5(c *Ctx, fns []*ssa.Function) {
 			c.Check(R5, key, call.Pos(), good, ifelse(good, "prefix test with \"..\" followed by a separator: only names below the parent directory are rejected",
 				CalleeName(call)+" with the bare constant "+strconvQuote(k)+" also rejects legal names that merely start with (or contain) two dots, e.g. \"..data\" or \"...\": a directory containing such an entry cannot be unpacked / such a named blob cannot be pushed"))
 		}
+	}
+}
+
+// c12R5CutForms: the same predicate written with strings.Cut / strings.CutPrefix.
+//
+//	first, _, _ := strings.Cut(rel, "/"); first == ".."                       — exact
+//	rest, ok := strings.CutPrefix(rel, ".."); ok && (rest == "" || rest[0] == '/')   — exact only with the separator test on rest
+func c12R5CutForms(c *Ctx, R5 string, f *ssa.Function) {
+	AllInstrs(f, func(in ssa.Instruction) {
+		bo, ok := in.(*ssa.BinOp)
+		if !ok || (bo.Op != token.EQL && bo.Op != token.NEQ) {
+			return
+		}
+		if k, isK := constString(bo.Y); isK && k == ".." && c11IsFirstComponent(bo.X) {
+			c.OK(R5, FnName(f)+"|dotdot-test:first-component", bo.Pos(), "the first path component is compared with \"..\": only \"..\" and names below \"../\" are rejected")
+		}
+	})
+	for _, cp := range CallsTo(f, "strings.CutPrefix") {
+		k, isK := constString(cp.Common().Args[1])
+		if !isK || !strings.Contains(k, "..") {
+			continue
+		}
+		good := k == "../" || k == `..\`
+		if k == ".." {
+			if rest := ResultOf(cp, 0); rest != nil {
+				ra := Aliases(rest)
+				sepTest := false
+				AllInstrs(f, func(in ssa.Instruction) {
+					switch x := in.(type) {
+					case *ssa.BinOp:
+						if ix, isIx := x.X.(*ssa.Index); isIx && ra[ix.X] {
+							if sep, isSep := constInt(x.Y); isSep && (sep == '/' || sep == '\\') {
+								sepTest = true
+							}
+						}
+					case *ssa.Call:
+						if CalleeName(x) == "strings.HasPrefix" && ra[x.Call.Args[0]] {
+							sepTest = true
+						}
+					}
+				})
+				good = sepTest
+			}
+		}
+		c.Check(R5, FnName(f)+"|dotdot-test:strings.CutPrefix", cp.Pos(), good, ifelse(good, "CutPrefix(rel, \"..\") followed by a separator test on the rest: only \"..\" and names below \"../\" are rejected",
+			"CutPrefix with the bare constant "+strconvQuote(k)+" and no separator test on the rest also rejects legal names that merely start with two dots"))
 	}
 }
 
@@ -352,6 +399,7 @@ func c12ModeFromHeader(v ssa.Value, fns []*ssa.Function, depth int, seen map[ssa
 func c12R6(c *Ctx, fns []*ssa.Function) {
 	const R6 = "C12.R6.entry-mode-from-header"
 	c.Expect(R6, 2)
+	c.Expect(c12R7, 2)
 	c11PkgFns = fns
 	probe := &Ctx{Prop: c.Prop, Tier: c.Tier, P: c.P, Variant: c.Variant} // role resolution reports lost anchors under C11; not repeated here
 	roles := c11ResolveRoles(probe, fns)
@@ -382,11 +430,382 @@ func c12R6(c *Ctx, fns []*ssa.Function) {
 		if count[key] > 1 {
 			key += "#" + string(rune('0'+count[key]))
 		}
+		c12R7Site(c, fns, key, s)
 		ok := c12ModeFromHeader(s.Call.Common().Args[permIdx[s.Callee]], fns, 0, map[ssa.Value]bool{})
 		c.Check(R6, key, s.Call.Pos(), ok, ifelse(ok, "the mode of the created entry derives from the tar header [in "+FnName(s.Fn)+"]",
 			s.Callee+" [in "+FnName(s.Fn)+"] creates an archive entry with a mode that does not come from the entry's tar header (a constant, or a value also used for non-archive paths): "+
 				"directory / file modes of the packed tree are lost on unpack unless PreservePermissions is set"))
 	}
+}
+
+// ---------- R7: with PreservePermissions every created entry gets its exact mode ----------
+
+const c12R7 = "C12.R7.preserved-modes-exact"
+
+// c12R7Site: behind the creation of an archive entry that carries a mode (a
+// directory or a regular file) and with Store.PreservePermissions set, a chmod
+// of that entry (os.Chmod on its path, or Chmod on its open handle) with a mode
+// taken from the entry's header is executed before the next entry / before the
+// creating function returns successfully.  Decided by a path exploration from
+// the creation site in which (a) tests of the header's Typeflag are resolved by
+// the entry kind the site belongs to, (b) tests of the option (also when carried
+// by a local variable / phi) are resolved to "set".  If the creating function
+// has no such chmod, its call sites are examined instead (helper / dispatch table).
+func c12R7Site(c *Ctx, fns []*ssa.Function, key string, s EffectSite) {
+	flags := c12FlagSets(fns, "~/content/file.Store.PreservePermissions")
+	skip, why := c12ChmodSkipped(fns, flags, s.Fn, s.Call.(ssa.Instruction), s.Call.Common().Args[0], s.Call.Value(), nil, 0)
+	c.Check(c12R7, key, s.Call.Pos(), !skip, ifelse(!skip, "with PreservePermissions set, the entry created here is chmod'ed to its header mode before the next entry",
+		"with PreservePermissions set, "+why+": the entry created by "+s.Callee+" [in "+FnName(s.Fn)+"] keeps the mode produced under the umask, so the unpacked tree does not have the packed modes"))
+}
+
+func c12TypeflagTest(cond ssa.Value) (k int64, eq bool, ok bool) {
+	bo, isBin := cond.(*ssa.BinOp)
+	if !isBin || (bo.Op != token.EQL && bo.Op != token.NEQ) {
+		return 0, false, false
+	}
+	isTF := func(v ssa.Value) bool {
+		for _, r := range Roots(v) {
+			switch u := r.(type) {
+			case *ssa.UnOp:
+				if fa, isFA := u.X.(*ssa.FieldAddr); isFA && u.Op == token.MUL && fieldName(fa.X.Type(), fa.Field) == "archive/tar.Header.Typeflag" {
+					continue
+				}
+			case *ssa.Field:
+				if fieldName(u.X.Type(), u.Field) == "archive/tar.Header.Typeflag" {
+					continue
+				}
+			}
+			return false
+		}
+		return len(Roots(v)) > 0
+	}
+	if kk, isK := constInt(bo.Y); isK && isTF(bo.X) {
+		return kk, bo.Op == token.EQL, true
+	}
+	if kk, isK := constInt(bo.X); isK && isTF(bo.Y) {
+		return kk, bo.Op == token.EQL, true
+	}
+	return 0, false, false
+}
+
+// c12TypeflagMembership: cond is slices.Contains(<constant byte set>, header.Typeflag);
+// the set may be a local literal or a package-level variable initialised with a literal.
+func c12TypeflagMembership(cond ssa.Value) (map[int64]bool, bool) {
+	call, ok := cond.(*ssa.Call)
+	if !ok || CalleeName(call) != "slices.Contains" || len(call.Call.Args) != 2 {
+		return nil, false
+	}
+	if _, _, isTF := c12TypeflagTest(&ssa.BinOp{Op: token.EQL, X: call.Call.Args[1], Y: ssa.NewConst(constant.MakeInt64(0), types.Typ[types.Byte])}); !isTF {
+		return nil, false
+	}
+	set := map[int64]bool{}
+	collect := func(v ssa.Value) bool {
+		var els []ssa.Value
+		c11SliceElems(v, &els)
+		if len(els) == 0 {
+			return false
+		}
+		for _, e := range els {
+			k, isK := constInt(e)
+			if !isK {
+				return false
+			}
+			set[k] = true
+		}
+		return true
+	}
+	for _, r := range Roots(call.Call.Args[0]) {
+		if _, isSlice := r.(*ssa.Slice); isSlice {
+			if !collect(r) {
+				return nil, false
+			}
+			continue
+		}
+		ld, isLoad := r.(*ssa.UnOp)
+		if !isLoad || ld.Op != token.MUL {
+			return nil, false
+		}
+		g, isGlobal := ld.X.(*ssa.Global)
+		if !isGlobal || g.Pkg == nil {
+			return nil, false
+		}
+		found := false
+		if initFn := g.Pkg.Func("init"); initFn != nil {
+			AllInstrs(initFn, func(in ssa.Instruction) {
+				if st, isStore := in.(*ssa.Store); isStore && st.Addr == ssa.Value(g) {
+					if collect(st.Val) {
+						found = true
+					}
+				}
+			})
+		}
+		// never reassigned elsewhere in the package
+		for _, m := range g.Pkg.Members {
+			if mf, isFn := m.(*ssa.Function); isFn && mf.Name() != "init" {
+				AllInstrs(mf, func(in ssa.Instruction) {
+					if st, isStore := in.(*ssa.Store); isStore && st.Addr == ssa.Value(g) {
+						found = false
+					}
+				})
+			}
+		}
+		if !found {
+			return nil, false
+		}
+	}
+	return set, len(set) > 0
+}
+
+// c12ChmodSkipped explores fn from just behind instruction `from`.
+func c12ChmodSkipped(fns []*ssa.Function, flags map[*ssa.Function]map[ssa.Value]bool, fn *ssa.Function, from ssa.Instruction, path ssa.Value, handleTuple ssa.Value, kind *int64, depth int) (bool, string) {
+	// the entry kind: a Typeflag == k edge dominating the site
+	if kind == nil {
+		for _, i := range Ifs(fn) {
+			cond, t, f := ifEdges(i)
+			if k, eq, ok := c12TypeflagTest(cond); ok {
+				e := t
+				if !eq {
+					e = f
+				}
+				if MustPass(from, newCut().Edges(e)) {
+					kk := k
+					kind = &kk
+				}
+			}
+		}
+	}
+	flag := flags[fn]
+	// chmods of this entry
+	chmods := map[ssa.Instruction]bool{}
+	for _, call := range Calls(fn, func(n string) bool { return n == "os.Chmod" || n == "(*os.File).Chmod" }) {
+		if _, isDefer := call.(*ssa.Defer); isDefer {
+			continue
+		}
+		a := call.Common().Args
+		same := false
+		if CalleeName(call) == "os.Chmod" {
+			same = c11SameRoots(a[0], path)
+		} else if handleTuple != nil {
+			same = c11DerivesFrom(a[0], map[ssa.Value]bool{handleTuple: true})
+		}
+		if same && c12ModeFromHeader(a[1], fns, 0, map[ssa.Value]bool{}) {
+			chmods[call.(ssa.Instruction)] = true
+		}
+	}
+	// targets: the next entry (header of the innermost loop around the site) and successful returns
+	var loopHead ssa.Instruction
+	size := 0
+	for _, l := range Loops(fn) {
+		if l.Contains(from) && (loopHead == nil || len(l.Blocks) < size) {
+			loopHead, size = l.Header.Instrs[0], len(l.Blocks)
+		}
+	}
+	okRets := map[ssa.Instruction]bool{}
+	isYield := false
+	if fn.Parent() != nil {
+		for _, rf := range c11RangeFuncs(fn.Parent()) {
+			if rf.Yield == fn {
+				isYield = true
+			}
+		}
+	}
+	if isYield {
+		// the body of a range-over-func loop: `return true` is the next entry, `return false` leaves the loop (error / break)
+		cont, _ := c11YieldReturns(fn)
+		for _, r := range cont {
+			okRets[r] = true
+		}
+	} else if ErrResultIndex(fn.Signature) >= 0 {
+		for _, a := range c11SuccessAtoms(fn) {
+			okRets[a.Ret] = true
+		}
+	} else {
+		for _, r := range Returns(fn) {
+			okRets[r] = true
+		}
+	}
+	type state struct{ b, pred *ssa.BasicBlock }
+	visited := map[state]bool{}
+	skipped := false
+	var walk func(b, pred *ssa.BasicBlock, idx int, phis map[*ssa.Phi]ssa.Value)
+	resolve := func(v ssa.Value, phis map[*ssa.Phi]ssa.Value) (val bool, known bool) {
+		for i := 0; i < 4; i++ {
+			if p, isPhi := v.(*ssa.Phi); isPhi {
+				if r, ok := phis[p]; ok {
+					v = r
+					continue
+				}
+			}
+			break
+		}
+		if flag[v] {
+			return true, true
+		}
+		if k, isConst := v.(*ssa.Const); isConst && k.Value != nil && k.Value.Kind() == constant.Bool {
+			return constant.BoolVal(k.Value), true
+		}
+		rs := Roots(v)
+		if len(rs) > 0 {
+			all := true
+			for _, r := range rs {
+				if !flag[r] {
+					all = false
+				}
+			}
+			if all {
+				return true, true
+			}
+		}
+		return false, false
+	}
+	walk = func(b, pred *ssa.BasicBlock, idx int, phis map[*ssa.Phi]ssa.Value) {
+		if skipped {
+			return
+		}
+		if idx == 0 {
+			st := state{b, pred}
+			if visited[st] {
+				return
+			}
+			visited[st] = true
+			if pred != nil {
+				np := map[*ssa.Phi]ssa.Value{}
+				for k, v := range phis {
+					np[k] = v
+				}
+				for _, in := range b.Instrs {
+					p, isPhi := in.(*ssa.Phi)
+					if !isPhi {
+						break
+					}
+					for i, pb := range b.Preds {
+						if pb == pred {
+							np[p] = p.Edges[i]
+						}
+					}
+				}
+				phis = np
+			}
+		}
+		for i := idx; i < len(b.Instrs); i++ {
+			in := b.Instrs[i]
+			if in == loopHead && idx == 0 && i == 0 {
+				skipped = true // the next entry is reached
+				return
+			}
+			if chmods[in] {
+				return
+			}
+			if r, isRet := in.(*ssa.Return); isRet {
+				if okRets[r] {
+					skipped = true
+				}
+				return
+			}
+			if ifi, isIf := in.(*ssa.If); isIf {
+				cond, t, f := ifEdges(ifi)
+				takeT, takeF := true, true
+				if k, eq, ok := c12TypeflagTest(cond); ok && kind != nil {
+					holds := (k == *kind) == eq
+					takeT, takeF = holds, !holds
+				} else if set, ok := c12TypeflagMembership(cond); ok && kind != nil {
+					takeT, takeF = set[*kind], !set[*kind]
+				} else if v, known := resolve(cond, phis); known {
+					takeT, takeF = v, !v
+				}
+				if takeT {
+					walk(t.To, b, 0, phis)
+				}
+				if takeF {
+					walk(f.To, b, 0, phis)
+				}
+				return
+			}
+		}
+		for _, sc := range b.Succs {
+			walk(sc, b, 0, phis)
+		}
+	}
+	walk(from.Block(), nil, instrIndex(from)+1, map[*ssa.Phi]ssa.Value{})
+	if !skipped {
+		return false, ""
+	}
+	if len(chmods) > 0 {
+		return true, "a path from the creation reaches the next entry / a successful return without the chmod to the header mode"
+	}
+	// no chmod of this entry here: the creating function is a helper — look at its call sites
+	if depth >= 3 {
+		return true, "no chmod of the created entry to its header mode is found"
+	}
+	pidx := -1
+	if rs := Roots(path); len(rs) == 1 {
+		if prm, ok := rs[0].(*ssa.Parameter); ok && prm.Parent() == fn {
+			for i, q := range fn.Params {
+				if q == prm {
+					pidx = i
+				}
+			}
+		}
+	}
+	if pidx < 0 {
+		return true, "no chmod of the created entry to its header mode is found"
+	}
+	type site struct {
+		g    *ssa.Function
+		call ssa.CallInstruction
+		kind *int64
+	}
+	var sites []site
+	for _, g := range fns {
+		for _, call := range Calls(g, func(string) bool { return true }) {
+			if StaticCallee(call) == fn && pidx < len(call.Common().Args) {
+				sites = append(sites, site{g, call, kind})
+			}
+		}
+	}
+	if len(sites) == 0 && fn.Parent() != nil {
+		// a function literal kept in a dispatch table keyed by the entry kind
+		var k *int64
+		AllInstrs(fn.Parent(), func(in ssa.Instruction) {
+			mu, ok := in.(*ssa.MapUpdate)
+			if !ok {
+				return
+			}
+			isFn := mu.Value == ssa.Value(fn)
+			if mc, isMC := mu.Value.(*ssa.MakeClosure); isMC && mc.Fn == ssa.Value(fn) {
+				isFn = true
+			}
+			if kk, isK := constInt(mu.Key); isFn && isK {
+				k = &kk
+			}
+		})
+		for _, g := range append([]*ssa.Function{fn.Parent()}, Anons(fn.Parent())...) {
+			for _, call := range Calls(g, func(string) bool { return true }) {
+				cc := call.Common()
+				if cc.IsInvoke() || StaticCallee(call) != nil {
+					continue
+				}
+				if sig, ok := cc.Value.Type().Underlying().(*types.Signature); ok && types.Identical(sig, fn.Signature) && pidx < len(cc.Args) {
+					if kind != nil {
+						k = kind
+					}
+					sites = append(sites, site{g, call, k})
+				}
+			}
+		}
+	}
+	if len(sites) == 0 {
+		return true, "no chmod of the created entry to its header mode is found"
+	}
+	for _, st := range sites {
+		if _, isDefer := st.call.(*ssa.Defer); isDefer {
+			return true, "the creating helper is called deferred"
+		}
+		if sk, why := c12ChmodSkipped(fns, flags, st.g, st.call.(ssa.Instruction), st.call.Common().Args[pidx], nil, st.kind, depth+1); sk {
+			return true, why
+		}
+	}
+	return false, ""
 }
 
 // ---------- R1: directory packer ----------
@@ -1782,6 +2201,14 @@ func c12R4(c *Ctx, fns []*ssa.Function) {
 			pushNil, pushNonNil = append(pushNil, n...), append(pushNonNil, nn...)
 		}
 	}
+	// `switch err := push(); { case errors.Is(err, errSkip): return nil; case err != nil: … }`: errors.Is(err, X)==true implies err != nil
+	for _, p := range pushCalls {
+		if e := ErrOf(p); e != nil {
+			al := Aliases(e)
+			t, _, _ := CallTests(push, "errors.Is", func(call *ssa.Call) bool { return al[call.Call.Args[0]] })
+			pushNonNil = append(pushNonNil, t...)
+		}
+	}
 	forceT, _ := BoolTests(push, c11FieldReads(push, "~/content/file.Store.ForceCAS"))
 	atoms := c11SuccessAtoms(push)
 	ok := len(atoms) > 0 && c11AllAtomsPass(atoms, func() *cut { return newCut().Calls(rdCalls).Edges(forceT...).Edges(pushNonNil...) })
@@ -1795,9 +2222,13 @@ func c12R4(c *Ctx, fns []*ssa.Function) {
 	}
 	// tolerated sentinels inside the restorer
 	n := 0
-	for _, call := range Calls(RD, func(string) bool { return true }) {
+	var rdCallsAll []ssa.CallInstruction
+	for _, f := range append([]*ssa.Function{RD}, Anons(RD)...) {
+		rdCallsAll = append(rdCallsAll, Calls(f, func(string) bool { return true })...)
+	}
+	for _, call := range rdCallsAll {
 		g := StaticCallee(call)
-		if g == nil || ErrResultIndex(g.Signature) < 0 || fnPkgPath(g) != pkgPath(c11Pkg) {
+		if g == nil || ErrResultIndex(g.Signature) < 0 || fnPkgPath(g) != pkgPath(c11Pkg) || (call.Parent() != RD && g.Parent() == call.Parent()) {
 			continue
 		}
 		// the per-successor step: a closure of the restorer or an in-package helper that reaches the push helper
@@ -1812,7 +2243,19 @@ func c12R4(c *Ctx, fns []*ssa.Function) {
 			continue
 		}
 		n++
-		r := ErrFlow(call, ErrFlowOpts{Tolerated: []string{"~/errdef.ErrNotFound", "~/content/file.ErrDuplicateName"}})
+		tol := []string{"~/errdef.ErrNotFound", "~/content/file.ErrDuplicateName"}
+		r := ErrFlow(call, ErrFlowOpts{Tolerated: tol})
+		if !r.OK && call.Parent() == RD {
+			// the tolerance test may be a boolean helper (isBenign(err)) instead of inline errors.Is tests
+			if ok, how := c12ErrFlowWithPredicates(call, tol); ok {
+				r.OK, r.How = true, how
+			}
+		}
+		if call.Parent() != RD && ErrResultIndex(call.Parent().Signature) < 0 {
+			// inside the yield closure of a range-over-func loop
+			r.OK, r.Detail = c12ErrSurfacesFromYield(call, tol)
+			r.How = r.Detail
+		}
 		c.Check(R4, rn+"|tolerates-only-notfound-and-duplicate", call.Pos(), r.OK, ifelse(r.OK, r.How, "the restorer swallows an error other than ErrNotFound / ErrDuplicateName: a duplicate that could not be written is silently missing: "+r.Detail))
 	}
 	if n == 0 {
@@ -1827,6 +2270,87 @@ func c12R4(c *Ctx, fns []*ssa.Function) {
 // name already exists).  Same content under a different name must still be
 // materialised, so a skip depending on the digest, a counter, a set of already
 // restored contents … loses files.
+// c12IterBody describes "the body executed once per element of a collection":
+// a natural range loop, or the synthesized yield closure of a range-over-func
+// loop (for x := range slices.Values(xs) / slices.All(xs)).
+type c12IterBody struct {
+	Fn      *ssa.Function     // function holding the body (the enclosing function, or the yield closure)
+	Entry   *ssa.BasicBlock   // first block of the body
+	Next    []ssa.Instruction // reaching one of these means "next element" (loop header / `return true`)
+	In      func(*ssa.BasicBlock) bool
+	IsYield bool
+}
+
+// c12IterBodyOver finds the per-element body of the iteration over coll in fn.
+func c12IterBodyOver(fn *ssa.Function, coll ssa.Value) *c12IterBody {
+	for _, l := range Loops(fn) {
+		if r, _, body, _, ok := l.RangeIndex(); ok && c11SameRoots(r, coll) {
+			ll := l
+			return &c12IterBody{Fn: fn, Entry: body.To, Next: []ssa.Instruction{l.Header.Instrs[0]}, In: func(b *ssa.BasicBlock) bool { return ll.Blocks[b] && b != ll.Header }}
+		}
+	}
+	// range-over-func: seq := slices.Values(coll) / slices.All(coll); seq(yield)
+	for _, call := range Calls(fn, func(string) bool { return true }) {
+		cc := call.Common()
+		if cc.IsInvoke() || StaticCallee(call) != nil || len(cc.Args) != 1 {
+			continue
+		}
+		mc, ok := cc.Args[0].(*ssa.MakeClosure)
+		if !ok {
+			continue
+		}
+		fromColl := false
+		for _, r := range Roots(cc.Value) {
+			if pc, ok := r.(*ssa.Call); ok {
+				switch CalleeName(pc) {
+				case "slices.Values", "slices.All", "slices.Backward", "maps.Values", "maps.Keys", "maps.All":
+					if len(pc.Call.Args) == 1 && c11SameRoots(pc.Call.Args[0], coll) {
+						fromColl = true
+					}
+				}
+			}
+		}
+		if !fromColl {
+			continue
+		}
+		Y := mc.Fn.(*ssa.Function)
+		var next []ssa.Instruction
+		for _, ret := range Returns(Y) {
+			if len(ret.Results) == 1 {
+				if k, isConst := ret.Results[0].(*ssa.Const); isConst && k.Value != nil && constant.BoolVal(k.Value) {
+					next = append(next, ret)
+				}
+			}
+		}
+		if len(Y.Blocks) == 0 || len(next) == 0 {
+			continue
+		}
+		return &c12IterBody{Fn: Y, Entry: Y.Blocks[0], Next: next, In: func(*ssa.BasicBlock) bool { return true }, IsYield: true}
+	}
+	return nil
+}
+
+// c12IsRangeFuncBookkeeping: a test of the synthesized jump$N state of a yield closure.
+func c12IsRangeFuncBookkeeping(cond ssa.Value) bool {
+	var leaves []ssa.Value
+	c11Operands(cond, &leaves, map[ssa.Value]bool{}, 0)
+	found := false
+	for _, lf := range leaves {
+		switch u := lf.(type) {
+		case *ssa.Const:
+		case *ssa.UnOp:
+			fv, ok := u.X.(*ssa.FreeVar)
+			if !ok || !strings.HasPrefix(fv.Name(), "jump$") {
+				return false
+			}
+			found = true
+		default:
+			return false
+		}
+	}
+	return found
+}
+
 func c12R4EveryNamedSuccessor(c *Ctx, R4 string, RD *ssa.Function, rdCallees map[*ssa.Function]bool, pushCalls []ssa.CallInstruction) {
 	rn := FnName(RD)
 	key := rn + "|every-named-successor-restored"
@@ -1834,25 +2358,23 @@ func c12R4EveryNamedSuccessor(c *Ctx, R4 string, RD *ssa.Function, rdCallees map
 	for _, sc := range CallsTo(RD, "~/content.Successors") {
 		succ = ResultOf(sc, 0)
 	}
-	var loop *Loop
-	var body Edge
-	for _, l := range Loops(RD) {
-		if r, _, b, _, ok := l.RangeIndex(); ok && succ != nil && c11SameRoots(r, succ) {
-			loop, body = l, b
-		}
+	var it *c12IterBody
+	if succ != nil {
+		it = c12IterBodyOver(RD, succ)
 	}
-	if loop == nil {
-		c.Undecided(R4, key, RD.Pos(), "no range loop over the result of content.Successors in the restorer; shape not recognised")
+	if it == nil {
+		c.Undecided(R4, key, RD.Pos(), "no loop (range, or range over slices.Values/All) over the result of content.Successors in the restorer; shape not recognised")
 		return
 	}
+	F := it.Fn
 	pushHelpers := map[*ssa.Function]bool{}
 	for _, p := range pushCalls {
 		pushHelpers[StaticCallee(p)] = true
 	}
 	var steps []ssa.Instruction
-	for _, call := range Calls(RD, func(string) bool { return true }) {
+	for _, call := range Calls(F, func(string) bool { return true }) {
 		g := StaticCallee(call)
-		if g == nil || !loop.Contains(call.(ssa.Instruction)) {
+		if g == nil || !it.In(call.(ssa.Instruction).Block()) {
 			continue
 		}
 		if _, isDefer := call.(*ssa.Defer); isDefer {
@@ -1865,15 +2387,43 @@ func c12R4EveryNamedSuccessor(c *Ctx, R4 string, RD *ssa.Function, rdCallees map
 		}
 	}
 	if len(steps) == 0 {
-		c.Violation(R4, key, blockPos(loop.Header), "the loop over the successors never reaches the push helper: no duplicate is restored")
+		c.Violation(R4, key, blockPos(it.Entry), "the loop over the successors never reaches the push helper: no duplicate is restored")
 		return
 	}
-	header := loop.Header.Instrs[0]
 	cutS := newCut().Instr(steps...)
-	// blocks on a skip path: reachable from the body entry and reaching the next iteration, both without the restore step
+	reachesNext := func(b *ssa.BasicBlock) bool {
+		for _, n := range it.Next {
+			if reach(b, 0, n, cutS) {
+				return true
+			}
+		}
+		return false
+	}
 	title := ""
 	if k, ok := c.P.Obj("github.com/opencontainers/image-spec/specs-go/v1", "AnnotationTitle").(*types.Const); ok {
 		title = strings.Trim(k.Val().ExactString(), "\"")
+	}
+	isStore := func(v ssa.Value) bool { // the restorer's receiver, directly or as captured by the yield closure
+		if RD.Signature.Recv() == nil || len(RD.Params) == 0 {
+			return false
+		}
+		if v == ssa.Value(RD.Params[0]) {
+			return true
+		}
+		if ld, ok := v.(*ssa.UnOp); ok && ld.Op == token.MUL {
+			if fv, ok := ld.X.(*ssa.FreeVar); ok {
+				for _, bnd := range freeVarBindings(fv) {
+					if a, ok := bnd.(*ssa.Alloc); ok {
+						for _, st := range storesTo(a) {
+							if st.Val == ssa.Value(RD.Params[0]) {
+								return true
+							}
+						}
+					}
+				}
+			}
+		}
+		return false
 	}
 	nameOnly := func(cond ssa.Value) (bool, string, bool) {
 		switch strip(cond).(type) {
@@ -1887,30 +2437,31 @@ func c12R4EveryNamedSuccessor(c *Ctx, R4 string, RD *ssa.Function, rdCallees map
 			switch u := lf.(type) {
 			case *ssa.Const:
 				continue
-			case *ssa.Parameter:
-				if len(RD.Params) > 0 && u == RD.Params[0] && RD.Signature.Recv() != nil {
-					continue // the store itself
-				}
 			case *ssa.Lookup:
 				if k, ok := constString(u.Index); ok && title != "" && k == title && strings.HasSuffix(fieldOfFuncValue(u.X), "Descriptor.Annotations") {
 					continue // the successor's title annotation
 				}
+			}
+			if isStore(lf) {
+				continue
 			}
 			return false, describe(lf), true
 		}
 		return true, "", true
 	}
 	ok := true
-	for b := range loop.Blocks {
-		ifi, isIf := b.Instrs[len(b.Instrs)-1].(*ssa.If)
-		if !isIf || b == loop.Header {
+	for _, b := range F.Blocks {
+		if !it.In(b) || len(b.Instrs) == 0 {
 			continue
 		}
-		onSkipPath := (b == body.To || reach(body.To, 0, b.Instrs[0], cutS)) && reach(b, 0, header, cutS)
+		ifi, isIf := b.Instrs[len(b.Instrs)-1].(*ssa.If)
+		if !isIf {
+			continue
+		}
+		onSkipPath := (b == it.Entry || reach(it.Entry, 0, b.Instrs[0], cutS)) && reachesNext(b)
 		if !onSkipPath {
 			continue
 		}
-		// the If itself must be reachable in its block without the restore step
 		stepBefore := false
 		for _, in := range b.Instrs {
 			if cutS.instrs[in] {
@@ -1918,6 +2469,9 @@ func c12R4EveryNamedSuccessor(c *Ctx, R4 string, RD *ssa.Function, rdCallees map
 			}
 		}
 		if stepBefore {
+			continue
+		}
+		if it.IsYield && c12IsRangeFuncBookkeeping(ifi.Cond) {
 			continue
 		}
 		good, what, shape := nameOnly(ifi.Cond)
@@ -1933,8 +2487,150 @@ func c12R4EveryNamedSuccessor(c *Ctx, R4 string, RD *ssa.Function, rdCallees map
 		}
 	}
 	if ok {
-		c.OK(R4, key, blockPos(loop.Header), "every path through the loop body that skips the restore step is decided only by the successor's title (empty / already exists)")
+		c.OK(R4, key, blockPos(it.Entry), "every path through the loop body that skips the restore step is decided only by the successor's title (empty / already exists)")
 	}
+}
+
+// c12PredicateTolerates: for an in-module helper P(err) bool, the result
+// polarities pol for which "P(err) == pol" implies that err is one of the
+// tolerated sentinels (errors.Is / ==).
+func c12PredicateTolerates(P *ssa.Function, argIdx int, tolerated []string) map[bool]bool {
+	out := map[bool]bool{}
+	if argIdx >= len(P.Params) || len(P.Blocks) == 0 {
+		return out
+	}
+	al := Aliases(P.Params[argIdx])
+	tolE := toleratedEdges(P, al, tolerated)
+	tolSet := map[string]bool{}
+	for _, t := range tolerated {
+		tolSet[t] = true
+	}
+	isTolTest := func(v ssa.Value) bool {
+		call, ok := v.(*ssa.Call)
+		return ok && CalleeName(call) == "errors.Is" && len(call.Call.Args) == 2 && al[call.Call.Args[0]] && tolSet[sentinelName(call.Call.Args[1])]
+	}
+	for _, pol := range []bool{true, false} {
+		ok, any := true, false
+		for _, a := range RetAtoms(P, 0) {
+			if k, isConst := a.Val.(*ssa.Const); isConst && k.Value != nil {
+				if constant.BoolVal(k.Value) != pol {
+					continue
+				}
+			} else if pol && isTolTest(a.Val) {
+				any = true
+				continue // returns the tolerance test itself
+			}
+			any = true
+			if !pol || len(tolE) == 0 || !AtomMustPass(a, newCut().Edges(tolE...)) {
+				ok = false
+			}
+		}
+		if ok && any {
+			out[pol] = true
+		}
+	}
+	return out
+}
+
+// c12ErrFlowWithPredicates: like ErrFlow with tolerated sentinels, where the
+// tolerance may be decided by a boolean helper taking the error.
+func c12ErrFlowWithPredicates(call ssa.CallInstruction, tolerated []string) (bool, string) {
+	fn := call.Parent()
+	errIdx := ErrResultIndex(fn.Signature)
+	e := ErrOf(call)
+	if e == nil || errIdx < 0 {
+		return false, ""
+	}
+	al := Aliases(e)
+	_, nonNil, _ := NilTests(fn, al)
+	if len(nonNil) == 0 {
+		return false, ""
+	}
+	cutT := newCut().Edges(toleratedEdges(fn, al, tolerated)...)
+	cutT.Instr(call.(ssa.Instruction))
+	helper := ""
+	for _, i := range Ifs(fn) {
+		cond, t, f := ifEdges(i)
+		pc, ok := cond.(*ssa.Call)
+		if !ok {
+			continue
+		}
+		P := StaticCallee(pc)
+		if P == nil || !inModule(P) || P.Signature.Results().Len() != 1 {
+			continue
+		}
+		for k, a := range pc.Call.Args {
+			if !al[a] {
+				continue
+			}
+			pols := c12PredicateTolerates(P, k, tolerated)
+			if pols[true] {
+				cutT.Edges(t)
+				helper = FnName(P)
+			}
+			if pols[false] {
+				cutT.Edges(f)
+				helper = FnName(P)
+			}
+		}
+	}
+	if helper == "" {
+		return false, ""
+	}
+	for _, ne := range nonNil {
+		if bad := findNilReturnFrom(fn, ne, errIdx, cutT, al); bad != nil {
+			return false, ""
+		}
+	}
+	return true, "tested; every failure path returns a non-nil error (tolerated, as decided by " + helper + ": " + strings.Join(tolerated, ", ") + ")"
+}
+
+// c12ErrSurfacesFromYield: inside the yield closure of a range-over-func loop an
+// error "returns" from the enclosing function by being stored into the captured
+// result variable and stopping the iteration (return false).  Every non-nil,
+// non-tolerated path must do that.
+func c12ErrSurfacesFromYield(call ssa.CallInstruction, tolerated []string) (bool, string) {
+	Y := call.Parent()
+	e := ErrOf(call)
+	if e == nil {
+		return false, "error result is discarded"
+	}
+	al := Aliases(e)
+	_, nonNil, _ := NilTests(Y, al)
+	if len(nonNil) == 0 {
+		return false, "error value is never tested against nil"
+	}
+	cutT := newCut().Edges(toleratedEdges(Y, al, tolerated)...)
+	var stores []ssa.Instruction
+	AllInstrs(Y, func(in ssa.Instruction) {
+		if st, ok := in.(*ssa.Store); ok {
+			if _, isFV := st.Addr.(*ssa.FreeVar); isFV && c11DerivesFrom(st.Val, al) {
+				stores = append(stores, st)
+			}
+		}
+	})
+	cutS := newCut().Edges(toleratedEdges(Y, al, tolerated)...).Instr(stores...)
+	_ = cutT
+	for _, ne := range nonNil {
+		for _, ret := range Returns(Y) {
+			if reach(ne.To, 0, ret, cutS) {
+				return false, "after the error is found non-nil (and not a tolerated sentinel) the loop body can finish without recording it in the enclosing function's result"
+			}
+		}
+	}
+	for _, st := range stores {
+		for _, ret := range Returns(Y) {
+			if reach(st.Block(), instrIndex(st)+1, ret, nil) {
+				if k, isConst := ret.Results[0].(*ssa.Const); !isConst || k.Value == nil || constant.BoolVal(k.Value) {
+					return false, "the error is recorded but the iteration is not stopped"
+				}
+			}
+		}
+	}
+	if len(stores) == 0 {
+		return false, "the error is never recorded in the enclosing function's result"
+	}
+	return true, "recorded in the enclosing function's result and the iteration stopped; tolerated: " + strings.Join(tolerated, ", ")
 }
 
 var c12Mutants = []Mutant{
@@ -2003,6 +2699,13 @@ var c12Mutants = []Mutant{
 	{Name: "file-entry-mode-constant", File: "content/file/utils.go",
 		Old: "\t\t\terr = writeFile(filePath, tr, header.FileInfo().Mode(), buf)", New: "\t\t\terr = writeFile(filePath, tr, 0666, buf)",
 		Expect: "C12.R6.entry-mode-from-header|archive-entry|os.OpenFile"},
+	// R7
+	{Name: "preserved-mode-only-for-files", File: "content/file/utils.go",
+		Old: "\t\tif preservePermissions && (header.Typeflag == tar.TypeReg || header.Typeflag == tar.TypeDir) {", New: "\t\tif preservePermissions && header.Typeflag == tar.TypeReg {",
+		Expect: "C12.R7.preserved-modes-exact|archive-entry|os.MkdirAll"},
+	{Name: "preserved-mode-flag-inverted", File: "content/file/utils.go",
+		Old: "\t\tif preservePermissions && (header.Typeflag == tar.TypeReg || header.Typeflag == tar.TypeDir) {", New: "\t\tif !preservePermissions && (header.Typeflag == tar.TypeReg || header.Typeflag == tar.TypeDir) {",
+		Expect: "C12.R7.preserved-modes-exact|archive-entry|os."},
 	// R3
 	{Name: "uid-not-zeroed", File: "content/file/utils.go",
 		Old: "\t\theader.Uid = 0\n", New: "",
